@@ -244,6 +244,17 @@ theorem plain_no_character_invented (c : Ch) (hcb : isBox c = false) (hcP : rich
     (h : renderTree cfg Deco.plain w tree = .ok ls) : (ls.flatMap rink).count c ≤ (nodeRaw Deco.plain tree).count c :=
   renderTree_chars_le_raw richAlpha c hcb hcP cfg Deco.plain w tree ls hfn hu plain_avoids h
 
+/-- **whole pipeline, plain output** (`from_read` with default options apart from footnotes): whatever the document and the
+    style sheets, a `.lines` outcome holds no such character more often than the texts of the render tree the front end built -/
+theorem plain_no_character_invented_pipeline (c : Ch) (hcb : isBox c = false) (hcP : richAlpha c = true) (cfg : Cfg) (w : Nat)
+    (useDoc : Bool) (agentCss userCss : Option (List Char)) (ci : CharInfo) (depth : Nat) (dom : Node) (ls : List RLine)
+    (hfn : cfg.footnotes = false) (hu : cfg.unicodeStrike = false)
+    (h : renderDom cfg Deco.plain w useDoc agentCss userCss ci depth dom = .lines ls) :
+    ∃ tree, domTree cfg.decorate useDoc agentCss userCss ci depth dom = .ok tree ∧
+      (ls.flatMap rink).count c ≤ (nodeRaw Deco.plain tree).count c := by
+  obtain ⟨tree, hdt, _, hr⟩ := renderDom_lines cfg Deco.plain w useDoc agentCss userCss ci depth dom ls h
+  exact ⟨tree, hdt, plain_no_character_invented c hcb hcP cfg w tree ls hfn hu hr⟩
+
 /-- non-vacuity: a table holding a list and a quoted paragraph, plain decorator, width 14: the letter `a` (code 97) occurs
     twice in the tree and twice in the output -/
 example :
